@@ -24,6 +24,7 @@ TREF = 298.0
 NOVAL = [0, 9999]
 # pressure of 1 bar / loading of 1 mmol/g expressed in the configuration's units (any common positive factor gives
 # a consistent set of isotherms; the enthalpy does not depend on it)
+PFAC_PA = {"Pa": 1.0, "kPa": 1e3, "bar": 1e5, "torr": 101325.0 / 760.0}      # harness side, only to BUILD descriptions in other units
 PFAC = {"bar": 1.0, "kPa": 100.0, "torr": 750.0617, "Pa": 1e5}
 LFAC = {"mmol": 1.0, "cm3(STP)": 22.414, "mg": 28.0134}
 
@@ -64,7 +65,9 @@ def forward(gen, par, p):
 
 def unit_kwargs(u, temp):
     kw = {k: u[k] for k in ("pressure_unit", "loading_basis", "loading_unit", "material_basis", "material_unit", "temperature_unit")}
-    kw["pressure_mode"] = "absolute"
+    kw["pressure_mode"] = u["pressure_mode"]
+    if kw["pressure_unit"] == "none":
+        kw["pressure_unit"] = None
     kw["temperature"] = temp if u["temperature_unit"] == "K" else temp - 273.15
     return kw
 
@@ -75,24 +78,32 @@ def build_isotherms(s):
     import pygaps
     import pygaps.modelling as pgm
     u = s["units"]
-    pf, lf = PFAC[u["pressure_unit"]], LFAC[u["loading_unit"]]
+    lf = LFAC[u["loading_unit"]]
     n_m = 5.0 * lf
     isos = []
+    aname = u["adsorbate"]
+    ads = pygaps.Adsorbate.find(aname)
     for temp in s["temps"]:
+        if u["pressure_mode"] == "absolute":
+            pf = PFAC[u["pressure_unit"]]
+        else:
+            # relative pressure p/p0(T) (in % for relative%): 1 bar expressed in units of THIS isotherm's saturation pressure,
+            # which the adsorbate API supplies (the library divides / multiplies by the same number)
+            pf = 1e5 / float(ads.saturation_pressure(float(temp))) * (100.0 if u["pressure_mode"] == "relative%" else 1.0)
         k = k_of_t(1.0, s["dH"], temp) / pf          # 1/bar at 298 K -> 1/unit
         par = gen_params(s["gen"], n_m, k)
         kw = unit_kwargs(u, float(temp))
         if s["kind"] == "model":
             # declared ranges strictly inside (0, capacity): the default loading grid of the method starts at the range minimum
             model = pgm.get_isotherm_model(s["gen"], parameters=par, pressure_range=(1e-3 / k, 1e3 / k), loading_range=(0.02 * n_m, 0.9 * n_m))
-            isos.append(pygaps.ModelIsotherm(model=model, material="enth-sample", adsorbate="N2", **kw))
+            isos.append(pygaps.ModelIsotherm(model=model, material="enth-sample", adsorbate=aname, **kw))
         else:
             # 300 points (75 per decade of K*p); the grid is shifted differently for every temperature so that
             # interpolation errors do not cancel between the isotherms
             shift = 1.0 + 0.37 * ((temp * 0.618) % 1.0)
             x = numpy.geomspace(1e-2, 1e2, 300) * shift
             p = x / k
-            isos.append(pygaps.PointIsotherm(pressure=list(p), loading=list(forward(s["gen"], par, p)), material="enth-sample", adsorbate="N2", **kw))
+            isos.append(pygaps.PointIsotherm(pressure=list(p), loading=list(forward(s["gen"], par, p)), material="enth-sample", adsorbate=aname, **kw))
     return isos, n_m
 
 
@@ -111,8 +122,8 @@ def main(tier, seed):
     run.set(states=res["distinct"], transitions=res["states_generated"], tlc_depth=res["depth"], tlc_invariants=["PermOk", "Partition", "Tols"])
     space = tlc.oracle("EnthalpyOracle", [{"k": "scen"}], timeout=600)[0]
     iso_scen = sorted(space["iso"], key=lambda s: (s["dH"], len(s["temps"]), s["temps"], s["order"], s["gen"], s["kind"], s["units"]["name"]))
-    if len(iso_scen) != 5 * 26 * 3 * 3 * 2 * 3:
-        raise MachineryError(f"spec enumerates {len(iso_scen)} isosteric scenarios, expected 7020")
+    if len(iso_scen) != 5 * 26 * 3 * 3 * 2 * 5:
+        raise MachineryError(f"spec enumerates {len(iso_scen)} isosteric scenarios, expected 11700")
 
     queries, meta = [], []
 
@@ -162,27 +173,39 @@ def main(tier, seed):
                 targets += [math.sqrt(p_sat * p_c), p_c * 0.999]
             targets += [p_c * 1.001, 3.0 * p_c]
             for mi, (model, t) in enumerate((("Langmuir", 1.0), ("Toth", 0.6), ("Toth", 0.85))):
+              for ui, punit in enumerate(space["whit_model_units"]):
                 for ki, kshift in enumerate((1.0, 4.0)):
-                    if not thorough and (ai + ti + mi + ki + seed) % 2 != 0:
+                    if not thorough and (ai + ti + mi + ki + ui + seed) % 2 != 0:
                         continue
+                    if punit != "Pa" and ki == 1:
+                        continue
+                    upa = PFAC_PA[punit]
                     K = kshift / math.sqrt(0.2 * p_t * 3.0 * p_c)
                     par = {"n_m": n_m, "K": K} if model == "Langmuir" else {"n_m": n_m, "K": K, "t": t}
                     loads = [float(v) for v in forward(model, par, targets)]
                     if model == "Langmuir":
                         loads = [0.0] + loads
-                    sig = {"site": "enthalpy_sorption_whittaker", "input": "ModelIsotherm", "model": model}
-                    key = ("whit", aname, temp, model, t, kshift)
+                    sig = {"site": "enthalpy_sorption_whittaker", "input": "ModelIsotherm", "model": model, "model_pressure_unit": punit}
+                    key = ("whit", aname, temp, model, t, kshift, punit)
+                    # the description in its OWN pressure unit: K per unit = K per Pa * (Pa per unit)
+                    par_u = dict(par, K=K * upa)
                     try:
-                        m = pgm.get_isotherm_model(model, parameters=par, pressure_range=(0.0, 1e12), loading_range=(0.0, n_m))
-                        iso = pygaps.ModelIsotherm(model=m, material="enth-sample", adsorbate=aname, temperature=temp, pressure_mode="absolute", pressure_unit="Pa",
+                        m = pgm.get_isotherm_model(model, parameters=par_u, pressure_range=(0.0, 1e12 / upa), loading_range=(0.0, n_m))
+                        iso = pygaps.ModelIsotherm(model=m, material="enth-sample", adsorbate=aname, temperature=temp, pressure_mode="absolute", pressure_unit=punit,
                                                    loading_basis="molar", loading_unit="mmol", material_basis="mass", material_unit="g")
+                    except Exception as e:
+                        raise MachineryError(f"could not build the model isotherm in {punit}: {e}")
+                    try:
                         with numpy.errstate(all="ignore"):
                             out = enthalpy_sorption_whittaker(iso, loading=list(loads))
                     except Exception as e:
                         run.count(key)
-                        run.violation({**sig, "clause": "returns", "observed": "exception:" + exc_class(e)}, {"params": par, "T": temp, "message": str(e)[:300]})
+                        if punit != "Pa" and exc_class(e) in ("ParameterError", "CalculationError"):
+                            run.add("whittaker_model_isotherm_not_in_Pa_refused")     # a refusal is fine; a returned value must be right
+                            continue
+                        run.violation({**sig, "clause": "returns", "observed": "exception:" + exc_class(e)}, {"params": par_u, "T": temp, "message": str(e)[:300]})
                         continue
-                    queries.append(whit_query(ads, model, par, t, temp, p_t, p_c, p_sat, hv_t, loads, out))
+                    queries.append(whit_query(ads, model, par, t, temp, p_t, p_c, p_sat, hv_t, loads, out, kunit=(K * upa, punit)))
                     meta.append(("whit", key, sig, {"adsorbate": aname, "T": temp, "params": par, "loading": loads, "returned_loading": [float(v) for v in out["loading"]],
                                                      "enthalpy": [float(v) for v in out["enthalpy_sorption"]], "p_triple": p_t, "p_sat": p_sat, "p_critical": p_c}))
             # point isotherm entry: the method fits the description itself and reports it; the isotherm is handed over in every
@@ -301,16 +324,16 @@ def main(tier, seed):
             isosteric_scenarios_run=counts["iso"], isosteric_scenarios_in_spec=len(iso_scen), whittaker_runs=counts["whit"], whittaker_loading_classes=wclasses, whittaker_reported_and_judged_by_class=wreported,
             initial_point_cases=counts["point"], exhaustive=bool(thorough),
             rule="isosteric: dH {5,10,20,40,60} kJ/mol x all 26 subsets (2-5) of {200,250,298,350,400} K x order (asc, desc, rotated) x generator (Langmuir, Toth, DS-Langmuir) x "
-                 "(model isotherm | 300-point isotherm) x 3 unit configurations, enumerated by spec/Enthalpy.tla ("
+                 "(model isotherm | 300-point isotherm) x 5 unit configurations (3 absolute incl. degC; relative and relative% pressure with n-butane), enumerated by spec/Enthalpy.tla ("
                  + ("thorough: all" if thorough else "quick: every 8th model / 24th point scenario")
                  + ", offset by the seed); 4 loadings each, every 9th run uses the default 50-point loading grid. Whittaker: N2/CO2/CH4 x 3 subcritical temperatures x "
-                   "(Langmuir, Toth t=0.6, 0.85) x 2 affinities with loadings placed below / at / inside / beyond the range where h_vap exists, plus fitted point isotherms stored in 5 representations (Pa/bar/kPa, relative, relative%, K/degC). "
-                   "Initial point: 12 branch layouts x 3 enthalpy patterns x 2 branches from the spec. distinct = distinct scenario; initial-point cases whose branch is empty are trivial")
+                   "(Langmuir, Toth t=0.6, 0.85) x model isotherm expressed in Pa (2 affinities) / kPa / bar / torr (refusal accepted, a returned value must be the closed form) with loadings placed below / at / inside / beyond the range where h_vap exists, plus fitted point isotherms stored in 5 representations (Pa/bar/kPa, relative, relative%, K/degC). "
+                   "Initial point: 12 branch layouts x 6 enthalpy patterns (incl. negative, zero and > 400 first values) x 2 branches from the spec. distinct = distinct scenario; initial-point cases whose branch is empty are trivial")
     run.assume("K(T) = K0 exp(dH/RT) with R = 8.314462618 J/(mol K) is computed by the harness (input); ln and real powers of the Whittaker closed form are harness input, "
                "the formula itself (lambda + h_vap + RT, pressure of a loading, omission classes) is evaluated by TLC")
     run.assume("h_vap(p) is an independent reference: CoolProp (HEOS) queried directly with a private state object, not through Adsorbate; "
                "p_triple, p_sat, p_critical are observations of the adsorbate API")
-    run.assume("relative-pressure mode and temperature-dependent bases (volume_liquid) are not 'common units' for Clausius-Clapeyron and are not exercised")
+    run.assume("relative pressure p/p0(T) is built with the adsorbate API's own saturation pressure; temperature-dependent loading bases (volume_liquid) are not 'common units' and are not exercised")
     run.assume("loadings below the triple-point pressure may be omitted or reported with h_vap at the triple point (documented); loadings between p_sat and p_c may be omitted; "
                "fidelity of the lambda expression to Whittaker et al. is not decided (DESIGN section 8)")
     return run.finish()
@@ -327,7 +350,7 @@ def hvap_direct(ads, press):
     return (st.hmolar() - h_liq) / 1000.0
 
 
-def whit_query(ads, model, par, t, temp, p_t, p_c, p_sat, hv_t, loads, out, nm=None):
+def whit_query(ads, model, par, t, temp, p_t, p_c, p_sat, hv_t, loads, out, nm=None, kunit=None):
     nm = nm if nm is not None else par["n_m"]
     K = par["K"]
     root, lnterm, hvap = [], [], []
@@ -350,6 +373,6 @@ def whit_query(ads, model, par, t, temp, p_t, p_c, p_sat, hv_t, loads, out, nm=N
                 hvap.append(NOVAL)
         else:
             hvap.append(NOVAL)
-    return {"k": "whit", "model": model, "T": enc(temp), "nm": enc(nm), "K": enc(K), "t": enc(t), "pt": enc(p_t), "pc": enc(p_c), "psat": enc(p_sat),
+    return {"k": "whit", "model": model, "T": enc(temp), "nm": enc(nm), "Kunit": enc(kunit[0] if kunit else K), "punit": kunit[1] if kunit else "Pa", "t": enc(t), "pt": enc(p_t), "pc": enc(p_c), "psat": enc(p_sat),
             "n": [enc(v) for v in loads], "root": root, "lnterm": lnterm, "hvap": hvap, "hvap_t": enc(hv_t),
             "rn": [enc(v) for v in out["loading"]], "rh": [enc(v) for v in out["enthalpy_sorption"]]}
